@@ -50,6 +50,7 @@ class C06(props.BaseProp):
 
     def gen(self, seed, n):
         r = gv.SplitMix(seed * 1000003 + 6)
+        r2 = gv.SplitMix(seed * 7919 + 606)
         cases = []
         for i in range(n):
             directed = r.below(3) != 0
@@ -88,6 +89,8 @@ class C06(props.BaseProp):
                 # integer weights, so these cases are decided by the definitional oracle alone
                 c["wdiv"] = 4
                 c["nomodel"] = True
+            elif weighted and not big:
+                cg.weight_variant(r2, c)
             cases.append(c)
         return cases
 
@@ -101,7 +104,7 @@ class C06(props.BaseProp):
     def case_json(self, c):
         return {"id": c["id"], "spec": list(c["spec"]), "nodes": c["nodes"], "edges": [list(e) for e in c["edges"]],
                 "weighted": bool(c["weighted"]), "wf": bool(c["wf"]), "wdiv": c.get("wdiv", 1),
-                "nomodel": bool(c.get("nomodel"))}
+                "nomodel": bool(c.get("nomodel")), "wscale": c.get("wscale", 0)}
 
     def case_from_json(self, j):
         c = cg.graph_from_json(j)
@@ -194,3 +197,4 @@ P.manifest = {
     "technique": "Coq proof (BFS and Dijkstra loop invariants, formula stage, verified distance checker) + differential "
                  "correspondence vs vm_compute model + independent definitional oracle on the implementation",
 }
+P.rule += ' WEIGHT VARIANTS (separate PRNG stream): 20% of the weighted cases are run with a dyadic weight scale applied inside the harness (all weights x 2^k on input, weight-valued observations / 2^k on output, k in {-60, -3, 40}; exact in binary64, so the observations must equal those of the unscaled integers the model and the oracle use): path-length differences far below f64::EPSILON, all weights below 1, large magnitudes; a further 8% use weights 2^24 + {1,2,3} (exact in binary64, not representable in binary32).'
